@@ -1122,6 +1122,9 @@ class ExecMixin(object):
             st.alloc = na
             st.nalloc = 0
         self.apply_havoc(st, locs, 'chv')
+        if getattr(c, 'allocates', None):
+            # fields of objects the callee allocated: named through the (already havocked) post state
+            self.apply_havoc(st, self.resolve_locs(c.allocates, st, callee_ctx), 'chv')
         res = None
         if c.returns is not None and c.returns != NONE:
             rz = fresh('ret!' + c.target.rsplit('.', 1)[-1], sort_of(c.returns))
@@ -1135,6 +1138,7 @@ class ExecMixin(object):
             if isinstance(res.ty, Ref):
                 self.type_fact(st, res)
         callee_ctx.result = res
+        probe_state = st.fork()
         for ens in c.ensures:
             st.assume(self.spec_bool(ens, st, callee_ctx))
         for cname_, when, enss in c.cases:
@@ -1144,7 +1148,15 @@ class ExecMixin(object):
         if not self.feasible(st):
             # the assumed postcondition contradicts what is known on this path: report it (a contradictory contract would make
             # every later obligation on the path vacuous)
-            self.warnings.append('postcondition of %s is infeasible at a call in %s' % (c.name, ctx.contract.name if ctx.contract else '?'))
+            culprit = ''
+            if not self.feasible(probe_state):
+                return          # the path was already contradictory before the call: nothing is lost by dropping it
+            for ens in c.ensures:
+                probe_state.assume(self.spec_bool(ens, probe_state, callee_ctx))
+                if not self.feasible(probe_state):
+                    culprit = ' (first contradictory clause: %s)' % ens[:160]
+                    break
+            self.warnings.append('postcondition of %s is infeasible at a call in %s%s' % (c.name, ctx.contract.name if ctx.contract else '?', culprit))
             return
         yield st, res
 
